@@ -46,6 +46,7 @@ dispatcher.py:203-227, 279-320), one step per primitive as well:
   accAcquire   `with moduleobj.accessLock:` in `_setParameterValue`, and again (RLock, `adepth`) in the wrapper
   announce …   every call of the funnel the wrapper makes, and every assignment made by the body of the driver method
   accRelease, reqRelease
+(`doOps`: a `do` request — the body of the command assigns parameters, under the dispatcher lock only).
 
 `act k p` = connection `k` is selected by `broadcast_event` for messages of parameter `p` (general activation, module or
 parameter subscription — one module is modelled, so a subscription is a set of its parameters).  `snapped k p` (ghost) =
@@ -230,6 +231,11 @@ def changeOps {V E : Type} (o : Oracle V E) (k : Cid) (p : Pid) (rq : ChangeReq 
 /-- a `read` request of connection `k` (`handle_read` → `_getParameterValue` → read wrapper) -/
 def readReqOps {V E : Type} (o : Oracle V E) (k : Cid) (p : Pid) (inner : List V) (res : ReadRes V E) : List (Op V E) :=
   [.reqAcquire k] ++ guarded p (readEvs o inner res) ++ [.reqRelease]
+
+/-- a `do` request of connection `k` (`handle_do` → `_execute_command` → `Command.do`): the body of the command runs under
+the dispatcher lock only (commands take no access lock); every assignment of a parameter it makes is a call of the funnel -/
+def doOps {V E : Type} (k : Cid) (p : Pid) (inner : List V) : List (Op V E) :=
+  [.reqAcquire k] ++ (innerEvs inner).map (fun ev => .announce p ev .absent) ++ [.reqRelease]
 
 /-- initial state: nobody holds a lock, nothing delivered yet -/
 def Sys.init {V E : Type} (entries : Pid → Entry V E) (progs : Tid → List (Op V E)) (clock : Int)
